@@ -318,6 +318,23 @@ def equality_route(F, rep, rule="C05.equality-route"):
                 src.callee() if src is not None else "no call", nots, (" (%s)" % why) if why else "", "==" if name == "equ" else "!="))
             rep.ob(rule, "`%s` pushes %s Primitive::equals returned" % (name, "what" if want == 0 else "the negation of what"), "ok" if ok else "violated", detail,
                    c.span, fn=h.path, key="%s|%s#%d" % (rule, name, i))
+    # (1b) unary minus goes through Primitive::negate (whose kind table and overflow behaviour are decided elsewhere) on the operand itself
+    ng = F.fn("bytecode::instruction::implementations::neg")
+    if ng is None:
+        raise AnchorMissing("implementations::neg")
+    ncalls = ng.calls_to(PRIM + "::negate")
+    top = ng.calls_to("bytecode::context::Ctx::get_last_op_item_mut")
+    own = [1 for bi, si, dst, rv, st in ng.assigns() if rv.get("un") == "Neg" or rv.get("bin") in ("Sub", "SubWithOverflow", "Mul", "MulWithOverflow")]
+    recv_ok = False
+    for c in ncalls:
+        l = op_local(c.args[0]) if c.args else None
+        oc = rules.origin_calls(ng, l, transparent=rules.TRANSPARENT | {rules.TRY_BRANCH, "core::option::Option::unwrap"}) if l is not None else []
+        recv_ok = recv_ok or any(x in top for x in oc)
+    okn = bool(ncalls) and recv_ok and not own and all(c.target is not None and any(
+        k.matches(rules.TRY_BRANCH) and op_local(k.args[0]) == c.dst["l"] for k in ng.calls()) for c in ncalls)
+    rep.ob(rule, "`neg` negates the top operand with Primitive::negate and hands its failure on", "ok" if okn else "violated",
+           "" if okn else "%d negate call(s), receiver is the top operand: %s, own arithmetic in the handler: %d" % (len(ncalls), recv_ok, len(own)), ng.span, fn=ng.path,
+           key=rule + "|neg")
     # (2) who may call the structural equality
     ALLOWED = {
         "<bytecode::stack::PrimitiveFlagsPair as core::cmp::PartialEq>::eq": "derived on the (value, flags) pair; checked below to have no caller among the operations",
